@@ -667,6 +667,8 @@ class Fn:
                 return self.stubs[name](self, f.recv, *args, **kwargs)
             if f.attr == 'quantize':
                 return self.stub_quantize(f.recv, *args, **kwargs)
+            if f.attr == 'adjusted' and not args and not kwargs:
+                return self.stub_adjusted(f.recv)
             raise Unsupported('method ' + f.attr)
         if isinstance(f, SymCallable):
             return f.fn(self, *args, **kwargs)
@@ -694,6 +696,9 @@ class Fn:
             return False
         if getattr(f, '__self__', None) is decimal.Decimal and getattr(f, '__name__', '') == 'from_float':
             return unwrap(args[0])
+        if f is decimal.Context:
+            self.notes.append('decimal.Context(prec=...) = a context with enough precision for an exact quantize')
+            return ('decimal-context', kwargs.get('prec'))
         if f is decimal.Decimal:
             v = args[0]
             if isinstance(v, str):
@@ -797,7 +802,19 @@ class Fn:
         self.side_oob.append(z3.And(lo < hi, z3.Or(lo < 0, hi > len(tables[0][1]))))
         return total
 
-    def stub_quantize(self, recv, exp, rounding=None):
+    def stub_adjusted(self, recv):
+        """contract of Decimal.adjusted() (exponent of the most significant digit): adjusted() >= k iff |x| >= 10^k, instantiated at
+        k = 27 (the default precision boundary, the only threshold the code under verification compares it with)"""
+        _FRESH[0] += 1
+        adj = z3.Int('adjusted!%d' % _FRESH[0])
+        x = unwrap(recv)
+        xr = z3.ToReal(x) if is_z3(x) and x.sort() == z3.IntSort() else (z3.RealVal(x) if isinstance(x, int) else x)
+        ab = z3.If(xr >= 0, xr, -xr)
+        self.side.append((adj >= 27) == (ab >= z3.RealVal(10 ** 27)))
+        self.notes.append('Decimal.adjusted() >= 27 iff |x| >= 10^27')
+        return adj
+
+    def stub_quantize(self, recv, exp, rounding=None, context=None):
         mode = {'ROUND_HALF_UP': 'away', 'ROUND_HALF_DOWN': 'toward', 'ROUND_HALF_EVEN': 'even'}.get(rounding)
         if mode is None:
             raise Unsupported('quantize rounding %r' % (rounding,))
